@@ -27,7 +27,6 @@ Definition site_assert_i32 : Z := 909.       (* .assert_i32() / checked_add(..).
 Definition site_static_size : Z := 910.      (* Delta::write_impl: assert!(size == data.len()) *)
 Definition site_ordinal : Z := 911.          (* assert!(0 < ordinal && ordinal < OFFSET_EXTENDED_TYPE_ID) *)
 Definition site_next_low : Z := 912.         (* Builder::add_item: assert!(OFFSET_EXTENDED_TYPE_ID <= raw_type_id) *)
-Definition site_next_high : Z := 913.        (* Builder::add_item: assert!(raw_type_id < 0x8000) *)
 Definition site_items_underflow : Z := 914.  (* Items: usize subtraction (debug build) *)
 Definition site_type_unwrap : Z := 915.      (* Snap::type_id: raw.item(TYPE_ID_EX, ty).unwrap() *)
 Definition site_recycle_unwrap : Z := 916.   (* Snap::recycle: add_item(..).unwrap() *)
@@ -81,6 +80,7 @@ Definition is_u16 (v : Z) : bool := (0 <=? v) && (v <=? 65535).
 
 Definition TYPE_ID_EX : Z := 0.
 Definition OFFSET_EXTENDED_TYPE_ID : Z := 16384.   (* 0x4000 *)
+Definition MAX_EXTENDED_TYPE_ID : Z := 32768.      (* 0x8000 *)
 Definition MAX_SNAPSHOT_SIZE : Z := 65536.
 Definition MAX_SNAPSHOT_ITEMS : Z := 1024.
 
@@ -276,6 +276,8 @@ Fixpoint rwd_update (from : rawsnap) (dbuf : list Z) (upd : list (Z * range)) (S
     let* diff := slice dbuf r in
     let* (S1, ro) := prepare_item S (key ty id) (length diff) in
     let* _ := slice (rs_buf S1) ro in                               (* &mut self.buf[to_usize(offset)] *)
+    (* since the repair of defect #9: a kept item of another size is an error, not an assert *)
+    if negb (range_len ro =? length diff)%nat then Err DeltaDifferingSizes else
     let* in_ := raw_item from ty id in
     let* out := apply_item_delta in_ diff (range_len ro) in
     let* buf' := write_range (rs_buf S1) ro out in
@@ -607,9 +609,9 @@ Inductive tyid := Ordinal (o : Z) | Uuid (u : Z).
 Record snap := { sn_raw : rawsnap; sn_ext : list (Z * Z) (* uuid -> raw type id, sorted by uuid *) }.
 Definition snap_empty : snap := {| sn_raw := raw_empty; sn_ext := [] |}.
 
-(* which value build_from_raw registers for a registry item (key k):
-   the code before the repair of defect #8 used the item's raw type id (always 0) *)
-Definition registered_type_id (k : Z) : Z := key_to_raw_type_id k.
+(* the value build_from_raw registers for a registry item with key k: the item's id
+   (before the repair of defect #8 it was the item's raw type id, i.e. always 0) *)
+Definition registered_type_id (k : Z) : Z := key_to_id k.
 
 Fixpoint bfr_loop (S : rawsnap) (offs : list (Z * range)) (ext : list (Z * Z)) (prev : option Z)
   : wres (list (Z * Z)) :=
@@ -624,6 +626,9 @@ Fixpoint bfr_loop (S : rawsnap) (offs : list (Z * range)) (ext : list (Z * Z)) (
       match ou with
       | None => werr InvalidUuidType
       | Some u =>
+        (* since the repair of defect #10: only numbers a Builder assigns are accepted *)
+        if negb ((OFFSET_EXTENDED_TYPE_ID <=? registered_type_id k) && (registered_type_id k <? MAX_EXTENDED_TYPE_ID))
+        then werr InvalidUuidType else
         match aget u ext with
         | Some _ => werr DuplicateUuidType
         | None => bfr_loop S t (ains u (registered_type_id k) ext) prev
@@ -723,7 +728,7 @@ Definition builder_add (b : builder) (t : tyid) (id : Z) (data : list Z) : build
     | None =>
       let ty := b_next b in
       if negb (OFFSET_EXTENDED_TYPE_ID <=? ty) then (b, Panic site_next_low)
-      else if negb (ty <? 32768) then (b, Panic site_next_high)
+      else if MAX_EXTENDED_TYPE_ID <=? ty then (b, Err BTooManyItems)   (* was an assert before the repair of defect #10 *)
       else match add_item (sn_raw S) TYPE_ID_EX ty (uuid_to_item_data u) with
            | Ok R =>
              step2 {| b_snap := {| sn_raw := R; sn_ext := ains u ty (sn_ext S) |}; b_next := ty + 1 |} ty
@@ -775,10 +780,11 @@ Fixpoint sortedb (l : list Z) : bool :=
 
 Definition range_leb (a b : range) : bool :=
   (fst a <? fst b)%nat || ((fst a =? fst b)%nat && (snd a <=? snd b)%nat).
-Fixpoint insert_range (x : range) (l : list range) : list range :=
-  match l with [] => [x] | y :: r => if range_leb x y then x :: l else y :: insert_range x r end.
-Fixpoint isort_range (l : list range) : list range :=
-  match l with [] => [] | x :: r => insert_range x (isort_range r) end.
+(* the (key, range) pairs ordered by their range *)
+Fixpoint insert_off (x : Z * range) (l : list (Z * range)) : list (Z * range) :=
+  match l with [] => [x] | y :: r => if range_leb (snd x) (snd y) then x :: l else y :: insert_off x r end.
+Fixpoint isort_off (l : list (Z * range)) : list (Z * range) :=
+  match l with [] => [] | x :: r => insert_off x (isort_off r) end.
 (* consecutive ranges from pos to n *)
 Fixpoint chainb (pos : nat) (rs : list range) (n : nat) : bool :=
   match rs with
@@ -791,7 +797,7 @@ Definition raw_ok (S : rawsnap) : bool :=
   sortedb (map fst (rs_offs S))
   && forallb is_i32 (map fst (rs_offs S))
   && forallb is_i32 (rs_buf S)
-  && chainb 0 (isort_range (map snd (rs_offs S))) (length (rs_buf S))
+  && chainb 0 (map snd (isort_off (rs_offs S))) (length (rs_buf S))
   && (Z.of_nat (length (rs_offs S)) <=? MAX_SNAPSHOT_ITEMS)
   && (ser_size (Z.of_nat (length (rs_offs S))) (Z.of_nat (length (rs_buf S))) <=? MAX_SNAPSHOT_SIZE).
 
